@@ -38,9 +38,22 @@ def compile_it(con):
     return o
 
 
+def peek_failed(spec, value):
+    """did a Peek in this (Struct-nested) spec swallow a failure?  Its look-ahead then ran over truncated or unfit data, where
+    generated code is documented to differ"""
+    if spec[0] == "struct" and isinstance(value, dict):
+        for name, sub in spec[1]:
+            if name and sub[0] == "peek" and dict.get(value, name) is None:
+                return True
+            if name and sub[0] == "struct" and peek_failed(sub, dict.get(value, name)):
+                return True
+    return False
+
+
 def oracle_factory(ctx):
     def oracle(case):
-        spec, params, value, extra = case
+        spec, params, value, extra = case[:4]
+        skip_build = len(case) > 4 and case[4]      # seeking campaign: no value of its own (short built bytes would be truncated look-ahead)
         con = G.realise(spec)
         cc = compile_it(con)
         fk = focus_kind(spec)
@@ -54,9 +67,9 @@ def oracle_factory(ctx):
         emitted = "def parse_struct" in comp.source or "def parse_sequence" in comp.source or "ListContainer(" in comp.source
         ctx.record(case, emitted and context_dependent(spec), ["compiled", "ctx-dependent" if context_dependent(spec) else "ctx-free"] + ["kind/" + k for k in G.kinds(spec)])
         # build
-        ib = call(con.build, value, **params)
+        ib = call(con.build, value, **params) if not skip_build else None
         datas = list(extra)
-        if ib.ok:
+        if ib is not None and ib.ok:
             cb = call(comp.build, value, **params)
             if not cb.ok:
                 return Failure("C04/build-raises/%s/%s" % (fk, type(cb.exc).__name__), "compiled build(%s) raised %r, interpreter builds %s | %s" % (short(value), cb, ib.value.hex(), where))
@@ -67,6 +80,9 @@ def oracle_factory(ctx):
         for d in datas:
             ip = call(con.parse, d, **params)
             if not ip.ok:
+                continue
+            if skip_build and peek_failed(spec, ip.value):
+                ctx.tally("seeking/look-ahead-failed (excluded by documentation)")
                 continue
             cp = call(comp.parse, d, **params)
             if not cp.ok:
@@ -244,10 +260,139 @@ def campaign_probes(ctx):
 campaign_probes.shards = (4, 16)
 
 
-CAMPAIGNS = {"grammar": campaign_grammar, "probes": campaign_probes}
+# ---------------------------------------------------------------------------------------------
+# seeking and look-ahead emitters (Pointer, Peek, Union, Seek, Tell, RestreamData, NamedTuple): differential on inputs long
+# enough for every look-ahead (look-ahead over truncated data is excluded by documentation); values for build are the
+# interpreter's own parse results
+# ---------------------------------------------------------------------------------------------
+@st.composite
+def seeking_cases(draw):
+    names = [0]
+
+    def fresh(p="f"):
+        names[0] += 1
+        return "%s%d" % (p, names[0])
+
+    def small():
+        return draw(st.sampled_from([B1, ["int", 2, False, "l", "alias"], ["int", 3, True, "b", "bi"], ["bytes", 2], ["flag"],
+                                     ["struct", [["x", B1], ["y", ["int", 2, False, "b", "alias"]]], "ctor"], ["array", 2, B1, "ctor"],
+                                     ["enum", B1, [["A", 1], ["B", 2]], "kw"], ["pstr", 3, "ascii"], ["prefixed", B1, ["gbytes"], False]]))
+
+    def offset(ints):
+        o = draw(st.sampled_from(["const", "const", "ref", "neg"] if ints else ["const", "const", "neg"]))
+        if o == "const":
+            return draw(st.integers(0, 12))
+        if o == "neg":
+            return -draw(st.integers(1, 8))
+        base = ["this", [draw(st.sampled_from(ints))], draw(st.sampled_from(["attr", "item"]))]
+        return draw(st.sampled_from([["bin", "%", base, ["const", 8]], ["bin", "&", base, ["const", 7]], ["bin", "+", ["bin", ">>", base, ["const", 5]], ["const", 1]]]))
+
+    def members(depth, ints):
+        out = []
+        for _ in range(draw(st.integers(2, 5))):
+            o = draw(st.sampled_from(["int", "int", "pointer", "pointer", "peek", "union", "tell", "seek", "restream", "namedtuple", "nested", "probe", "small"]))
+            if o == "int":
+                n = fresh("n")
+                out.append([n, B1])
+                ints.append(n)
+            elif o == "pointer":
+                out.append([fresh("p"), ["pointer", offset(ints), small()]])
+            elif o == "peek":
+                out.append([fresh("k"), ["peek", small()]])
+            elif o == "union":
+                a, b = fresh("u"), fresh("u")
+                pf = draw(st.sampled_from([None, None, 0, 1, a, b]))
+                out.append([fresh("un"), ["union", pf, [[a, small()], [b, small()]]]])
+            elif o == "tell":
+                t = fresh("t")
+                out.append([t, ["tell"]])
+                if draw(st.booleans()):
+                    # the offset reported while BUILDING goes into later bytes
+                    out.append([fresh("d"), ["rebuild", B1, ["bin", "&", ["this", [t], "attr"], ["const", 255]]]])
+            elif o == "seek":
+                out.append([fresh("s") if draw(st.booleans()) else None, ["seek", draw(st.integers(0, 3)), draw(st.sampled_from([0, 1]))]])
+            elif o == "restream":
+                out.append([fresh("r"), ["restreamdata", draw(st.binary(min_size=4, max_size=6)), small()]])
+            elif o == "namedtuple":
+                out.append([fresh("nt"), ["namedtuple", ["a", "b"], draw(st.sampled_from([["array", 2, B1, "ctor"], ["seq", [[None, B1], [None, ["int", 2, False, "b", "alias"]]]],
+                                                                                     ["struct", [["a", B1], ["b", ["bytes", 2]]], "ctor"]]))]])
+            elif o == "nested" and depth > 0:
+                out.append([fresh("g"), ["struct", members(depth - 1, []), "ctor"]])
+            elif o == "probe" and ints:
+                # later bytes depend on what generated code stored for an earlier member
+                ref = ["this", [draw(st.sampled_from(ints))], "attr"]
+                out.append([fresh("d"), ["bytes", ["bin", "&", ref, ["const", 3]]]])
+            else:
+                out.append([fresh("f"), small()])
+        return out
+    spec = ["struct", members(1, []), "ctor"]
+    datas = [draw(st.binary(min_size=40, max_size=64)) for _ in range(draw(st.integers(1, 3)))]
+    if draw(st.booleans()):
+        datas.append(bytes(draw(st.lists(st.integers(0, 9), min_size=48, max_size=48))))      # small bytes: references stay in range
+    return [spec, {}, None, datas, True]
+
+
+# ---------------------------------------------------------------------------------------------
+# bit-level constructs compiled on their own (compile() does not look inside Bitwise, which it links to the interpreter; the
+# emitters of BitsInteger/Bit/Nibble/Octet/Flag/Padding only run when a bit-level construct is compiled directly and fed a
+# stream of 0/1 bytes, which is what Bitwise hands to its inner construct)
+# ---------------------------------------------------------------------------------------------
+@st.composite
+def bitlevel_cases(draw):
+    members = []
+    total = 0
+    ints = []
+    for i in range(draw(st.integers(1, 5))):
+        o = draw(st.sampled_from(["bits", "bits", "bits", "bit", "nibble", "octet", "flag", "padding", "array", "dep"]))
+        name = "b%d" % i
+        if o == "bits":
+            w = draw(st.integers(1, 24))
+            swapped = draw(st.booleans()) and w % 8 == 0
+            members.append([name, ["bits", w, draw(st.booleans()), swapped]])
+            total += w
+            if w <= 3 and not members[-1][1][2]:
+                ints.append(name)
+        elif o in ("bit", "nibble", "octet"):
+            members.append([name, [o]])
+            total += {"bit": 1, "nibble": 4, "octet": 8}[o]
+            if o == "bit":
+                ints.append(name)
+        elif o == "flag":
+            members.append([name, ["flag"]])
+            total += 1
+        elif o == "padding":
+            n = draw(st.integers(0, 5))
+            members.append([None, ["padding", n, b"\x00"]])
+            total += n
+        elif o == "array":
+            n, w = draw(st.integers(0, 3)), draw(st.integers(1, 9))
+            members.append([name, ["array", n, ["bits", w, draw(st.booleans()), False], "ctor"]])
+            total += n * w
+        elif ints:
+            # width-dependent member: a later field whose presence depends on an earlier bit field
+            ref = ["this", [draw(st.sampled_from(ints))], "attr"]
+            members.append([name, ["if", ref, ["bits", 3, False, False]]])
+            total += 3
+    spec = ["struct", members, "ctor"]
+    datas = [bytes(draw(st.lists(st.integers(0, 1), min_size=total + 4, max_size=total + 8))) for _ in range(draw(st.integers(1, 3)))]
+    return [spec, {}, None, datas, True]
+
+
+def campaign_bitlevel(ctx):
+    ctx.search(bitlevel_cases(), oracle_factory(ctx), ctx.budget(6000, 100000))
+campaign_bitlevel.shards = (2, 8)
+
+
+def campaign_seeking(ctx):
+    ctx.search(seeking_cases(), oracle_factory(ctx), ctx.budget(12000, 200000))
+campaign_seeking.shards = (4, 16)
+
+
+CAMPAIGNS = {"grammar": campaign_grammar, "probes": campaign_probes, "seeking": campaign_seeking, "bitlevel": campaign_bitlevel}
 
 
 def replay(campaign, case):
     class _C:
         def record(self, *a, **k): pass
+        def tally(self, *a, **k): pass
     return oracle_factory(_C())(case)
